@@ -129,7 +129,7 @@ def r1_no_data(P, rep, ctx):
     okn = bool(fn.tests(f"isinstance({nd}, IH5Dataset)", f"isinstance({nd}, IH5Group)"))
     # the same decision written as a conditional expression
     okn = okn or any(isinstance(x, ast.IfExp) and MM.match(f"isinstance({nd}, __t)", MM.polarity(x.test)[0]) is not None and {norm(x.body), norm(x.orelse)} == {"H5Type.dataset", "H5Type.group"} for x in ast.walk(fnfi.node))
-    comp = [x for x in ast.walk(fnfi.node) if isinstance(x, ast.DictComp) and len(x.generators) == 1 and norm(x.generators[0].iter) in (f"{nd}.attrs.keys()", f"{nd}.attrs") and not x.generators[0].ifs and norm(x.key) == norm(x.generators[0].target)]
+    comp = [x for x in ast.walk(fnfi.node) if isinstance(x, ast.DictComp) and len(x.generators) == 1 and fn.x(x.generators[0].iter) in (f"{nd}.attrs.keys()", f"{nd}.attrs") and not x.generators[0].ifs and norm(x.key) == norm(x.generators[0].target)]
     loops = [n for n in fn.g.nodes if n.kind == "for" and fn.x(n.stmt.iter) in (f"{nd}.attrs.keys()", f"{nd}.attrs")]
     rep.check(okn and (bool(comp) or bool(loops)), "C10.R1", fnfi.qual, "each node records its kind and all attribute names", fnfi.loc(), construct="for_node", message="SkeletonNodeInfo.for_node does not record node kind and all attribute names")
 
@@ -270,11 +270,16 @@ def r5_manifest_hash(P, rep, ctx):
     if mfv is None:
         raise AnalysisError("C10.R5: the fresh manifest variable of commit_patch not found")
     hashes = f.calls(f"qualified_hashsum(bytes({mfv}))")
-    saves_s = f.call_sites(f"{mfv}.save(__p)")
+    from .sem import object_writes
+
+    # the manifest is written by mf.save(path) or by the same steps in place (open(path, 'wb'); write(bytes(mf)))
+    saves_s = [(i, c, {"__p": p_}) for i, p_, o, k, c in object_writes(f) if o == mfv and k in ("save", "inline")]
     saves = [i for i, c, b in saves_s]
+    # where the manifest is actually serialised (as written, not through a name): it must not change afterwards
+    ser = [n.idx for n in g.nodes for e_ in n.exprs if e_ is not None for c_ in walk_local(e_) if isinstance(c_, ast.Call) and MM.match(f"bytes({mfv})", c_) is not None]
     rep.check(bool(hashes) and bool(saves), "C10.R5", fi.qual, "the hashed object (bytes(mf)) is the object that is saved (mf.save)", fi.loc(), construct="hash/save same object", message="the manifest whose bytes are hashed into the user block is not the manifest object written to disk")
     stores = [n.idx for n in g.nodes if n.kind == "stmt" and any(norm(t).startswith(mfv + ".") for _, t in store_targets(n.stmt))]
-    ok = not any(s_ in g.reach(hashes) for s_ in stores)
+    ok = not any(s_ in g.reach(hashes + ser) for s_ in stores)
     rep.check(ok, "C10.R5", fi.qual, "every modification of the manifest (inherited / overriding extensions) happens before it is hashed", fi.loc(), construct="no store after hash", message="the manifest is modified after its hash was recorded in the user block: the manifest on disk does not match the hash in its container")
     EXTS = "kwargs.pop('manifest_exts', None)"
     inh = [i for i, v, b in f.stores(f"{mfv}.manifest_exts") if f.x_at(i, v) in ("self.manifest.manifest_exts", "self._manifest.manifest_exts")]
